@@ -21,7 +21,19 @@ pub uninterp spec fn czero() -> int;
 pub uninterp spec fn pe(a: int) -> int;
 /// cap_off(bottom, c, dot): bottom 0 = Src (a cup glued below), 1 = Tgt (a cap glued on top)
 pub uninterp spec fn capf(a: int, bottom: int, comp: int, dot: int) -> int;
+pub uninterp spec fn csub(a: int, b: int) -> int;
+pub uninterp spec fn cneg(a: int) -> int;
+pub uninterp spec fn cmul(a: int, b: int) -> int;
+pub uninterp spec fn cinv(a: int) -> Option<int>;
+/// additive group: 0 - x = -x  (TRUSTED algebra fact)
+#[verifier::external_body] pub proof fn ax_sub_zero_left(x: int) ensures csub(czero(), x) == cneg(x) {}
 pub struct LC { pub g: Ghost<int> }
+pub trait LCL { spec fn lv(&self) -> int; }
+impl LCL for LC { open spec fn lv(&self) -> int { self.g@ } }
+impl<'a> LCL for &'a LC { open spec fn lv(&self) -> int { (**self).g@ } }
+#[verifier::external_body] pub fn mul_<A: LCL, B: LCL>(a: A, b: B) -> (r: LC) ensures r.g@ == cmul(a.lv(), b.lv()) { unimplemented!() }
+#[verifier::external_body] pub fn sub_<A: LCL, B: LCL>(a: A, b: B) -> (r: LC) ensures r.g@ == csub(a.lv(), b.lv()) { unimplemented!() }
+#[verifier::external_body] pub fn neg_<A: LCL>(a: A) -> (r: LC) ensures r.g@ == cneg(a.lv()) { unimplemented!() }
 #[derive(Clone, Copy)]
 pub struct HT { pub g: Ghost<int> }
 pub struct TngComp { pub id: Ghost<int>, pub marked_by: Ghost<Set<Edge>>, pub circle: Ghost<bool> }
@@ -39,6 +51,7 @@ impl LC {
     pub open spec fn v(&self) -> int { self.g@ }
     #[verifier::external_body] pub fn clone(&self) -> (r: LC) ensures r.v() == self.v() { unimplemented!() }
     #[verifier::external_body] pub fn is_zero(&self) -> (r: bool) ensures r == (self.v() == czero()) { unimplemented!() }
+    #[verifier::external_body] pub fn inv(&self) -> (r: Option<LC>) ensures r.is_some() == cinv(self.v()).is_some(), r.is_some() ==> r.unwrap().v() == cinv(self.v()).unwrap() { unimplemented!() }
     #[verifier::external_body] pub fn part_eval(self, h: &HT, t: &HT) -> (r: LC) ensures r.v() == pe(self.v()) { unimplemented!() }
     #[verifier::external_body] pub fn cap_off(self, b: Bottom, c: &TngComp, d: Dot) -> (r: LC) ensures r.v() == capf(self.v(), botn(b), c.id@, dotn(d)) { unimplemented!() }
 }
@@ -49,8 +62,11 @@ impl LC {
 #[derive(Clone, Copy)]
 pub struct TngKey { pub id: Ghost<int> }
 pub uninterp spec fn key_add(k: int, g: KhAlgGen) -> int;
+/// homological degree of a key (the weight of its state; labels do not count) -- UNINTERPRETED
+pub uninterp spec fn kdeg(k: int) -> int;
 /// appending a label gives a new key, and different labels give different keys (the label sequence is part of the key) -- TRUSTED
-#[verifier::external_body] pub proof fn ax_key_add(k: int) ensures key_add(k, KhAlgGen::X) != k, key_add(k, KhAlgGen::I) != k, key_add(k, KhAlgGen::X) != key_add(k, KhAlgGen::I) {}
+#[verifier::external_body] pub proof fn ax_key_add(k: int) ensures key_add(k, KhAlgGen::X) != k, key_add(k, KhAlgGen::I) != k, key_add(k, KhAlgGen::X) != key_add(k, KhAlgGen::I),
+    kdeg(key_add(k, KhAlgGen::X)) == kdeg(k), kdeg(key_add(k, KhAlgGen::I)) == kdeg(k) {}
 #[verifier::external_body] pub fn kadd_(a: &TngKey, g: KhAlgGen) -> (r: TngKey) ensures r.id@ == key_add(a.id@, g) { unimplemented!() }
 
 // ---------------------------------------------------------------- the graph
@@ -77,6 +93,34 @@ pub struct KeyIter { pub es: Ghost<Seq<int>> }
 pub struct KeyIterOwned { pub es: Ghost<Seq<int>> }
 impl KeyIter { #[verifier::external_body] pub fn cloned(self) -> (r: KeyIterOwned) ensures r.es@ == self.es@ { unimplemented!() } }
 impl KeyIterOwned { #[verifier::external_body] pub fn collect_vec(self) -> (r: Vec<TngKey>) ensures kids(r@) == self.es@ { unimplemented!() } }
+/// `E.filter(|&a| a != b)` on a key iterator (R37)
+#[verifier::external_body] pub fn filter_ne_(it: KeyIter, b: &TngKey) -> (r: KeyIter)
+    ensures nodup(it.es@) ==> nodup(r.es@), forall|x: int| inlist(r.es@, x) <==> (inlist(it.es@, x) && x != b.id@) { unimplemented!() }
+/// `cartesian!(A, B)` (R36): all pairs, A-major
+pub struct PairIter { pub es: Ghost<Seq<(int, int)>> }
+pub open spec fn inpairs(es: Seq<(int, int)>, a: int, b: int) -> bool { exists|i: int| 0 <= i < es.len() && #[trigger] es[i] == (a, b) }
+pub open spec fn nodup2(es: Seq<(int, int)>) -> bool { forall|i: int, j: int| 0 <= i < j < es.len() ==> es[i] != es[j] }
+#[verifier::external_body] pub fn cartesian_(a: KeyIter, b: KeyIter) -> (r: PairIter)
+    ensures (nodup(a.es@) && nodup(b.es@)) ==> nodup2(r.es@), forall|x: int, y: int| inpairs(r.es@, x, y) <==> (inlist(a.es@, x) && inlist(b.es@, y)) { unimplemented!() }
+pub open spec fn kpairs(v: Seq<(&TngKey, &TngKey)>) -> Seq<(int, int)> { v.map(|i: int, x: (&TngKey, &TngKey)| (x.0.id@, x.1.id@)) }
+impl PairIter { #[verifier::external_body] pub fn collect_vec<'a>(self) -> (r: Vec<(&'a TngKey, &'a TngKey)>) ensures kpairs(r@) == self.es@ { unimplemented!() } }
+/// front removal of a Vec (what `into_iter()` / rayon's indexed iterator yields next) -- ASSUMED std contract
+#[verifier::external_body] pub fn vec_take_first_<T>(v: &mut Vec<T>) -> (r: Option<T>)
+    ensures old(v)@.len() == 0 ==> r.is_none() && final(v)@ == old(v)@,
+        old(v)@.len() > 0 ==> r == Some(old(v)@[0]) && final(v)@ == old(v)@.subrange(1, old(v)@.len() as int),
+{ unimplemented!() }
+/// by-value iteration of a Vec (ASSUMED std contract)
+pub struct VOwnIter<T> { pub es: Ghost<Seq<T>>, pub pos: Ghost<int>, pub w: Option<T> }
+#[verifier::external_body] pub fn viter_own_<T>(v: Vec<T>) -> (r: VOwnIter<T>) ensures r.es@ == v@, r.pos@ == 0 { unimplemented!() }
+impl<T> VOwnIter<T> {
+    pub fn into_iter(self) -> (r: Self) ensures r == self { self }
+    #[verifier::external_body] pub fn next(&mut self) -> (r: Option<T>)
+        requires 0 <= old(self).pos@ <= old(self).es@.len()
+        ensures final(self).es@ == old(self).es@,
+            old(self).pos@ < old(self).es@.len() ==> (final(self).pos@ == old(self).pos@ + 1 && r == Some(old(self).es@[old(self).pos@])),
+            old(self).pos@ >= old(self).es@.len() ==> (final(self).pos@ == old(self).pos@ && r.is_none()),
+    { unimplemented!() }
+}
 pub struct VIter<'a, T> { pub es: Ghost<Seq<T>>, pub pos: Ghost<int>, pub w: Option<&'a T> }
 #[verifier::external_body] pub fn viter_<'a, T>(c: &'a Vec<T>) -> (r: VIter<'a, T>) ensures r.es@ == c@, r.pos@ == 0 { unimplemented!() }
 impl<'a, T> VIter<'a, T> {
@@ -93,6 +137,7 @@ impl<'a, T> VIter<'a, T> {
 pub struct HTPair { pub g: Ghost<int> }
 impl HTPair { #[verifier::external_body] pub fn clone(&self) -> (r: (HT, HT)) { unimplemented!() } }
 pub struct TngComplex { pub ht: HTPair, pub base_pt: Option<Edge>, pub vertices: VMap, pub eg: Ghost<EMap> }
+pub open spec fn gwf(e: EMap, tngs: Map<int, Seq<TngComp>>) -> bool { nz(e) && forall|a: int, b: int| #[trigger] e.dom().contains((a, b)) ==> tngs.dom().contains(a) && tngs.dom().contains(b) && kdeg(b) == kdeg(a) + 1 }
 pub open spec fn nodup(es: Seq<int>) -> bool { forall|a: int, b: int| 0 <= a < b < es.len() ==> es[a] != es[b] }
 pub open spec fn inlist(es: Seq<int>, k: int) -> bool { exists|a: int| 0 <= a < es.len() && #[trigger] es[a] == k }
 /// es lists the sources of the edges into k (the targets of the edges out of k), each once
@@ -100,13 +145,27 @@ pub open spec fn lists_in(es: Seq<int>, e: EMap, k: int) -> bool { nodup(es) && 
 pub open spec fn lists_out(es: Seq<int>, e: EMap, k: int) -> bool { nodup(es) && forall|l: int| #[trigger] e.dom().contains((k, l)) <==> inlist(es, l) }
 impl TngComplex {
     pub open spec fn e(&self) -> EMap { self.eg@ }
-    pub open spec fn wf(&self) -> bool { nz(self.e()) && forall|a: int, b: int| self.e().dom().contains((a, b)) ==> self.vertices.tngs@.dom().contains(a) && self.vertices.tngs@.dom().contains(b) && a != b }
+    /// stored edges are non-zero, join vertices of the complex and raise the homological degree by one
+    pub open spec fn wf(&self) -> bool { gwf(self.e(), self.vertices.tngs@) }
     // ASSUMED accessors / graph operations (hash maps; rename / duplicate use closures that capture `&mut self`)
     #[verifier::external_body] pub fn vertex(&self, k: &TngKey) -> (r: &TngVertex) ensures self.vertices.tngs@.dom().contains(k.id@), r.tng.comps@ == self.vertices.tngs@[k.id@] { unimplemented!() }
     #[verifier::external_body] pub fn contains_base_pt(&self, c: &TngComp) -> (r: bool) ensures r == (self.base_pt.is_some() && c.marked_by@.contains(self.base_pt.unwrap())) { unimplemented!() }
     #[verifier::external_body] pub fn has_edge(&self, k: &TngKey, l: &TngKey) -> (r: bool) ensures r == self.e().dom().contains((k.id@, l.id@)) { unimplemented!() }
     #[verifier::external_body] pub fn keys_into(&self, k: &TngKey) -> (r: KeyIter) ensures lists_in(r.es@, self.e(), k.id@) { unimplemented!() }
     #[verifier::external_body] pub fn keys_out_from(&self, k: &TngKey) -> (r: KeyIter) ensures lists_out(r.es@, self.e(), k.id@) { unimplemented!() }
+    /// indexes two hash maps: does not return for a missing edge
+    #[verifier::external_body] pub fn edge(&self, k: &TngKey, l: &TngKey) -> (r: &LC)
+//@if B
+        requires self.e().dom().contains((k.id@, l.id@)),
+//@endif
+        ensures self.e().dom().contains((k.id@, l.id@)), r.v() == self.e()[(k.id@, l.id@)] { unimplemented!() }
+    #[verifier::external_body] pub fn ht(&self) -> (r: &(HT, HT)) { unimplemented!() }
+    /// removes the vertex and every edge at it
+    #[verifier::external_body] pub fn remove_vertex(&mut self, k: &TngKey) -> (v: TngVertex)
+        requires old(self).wf(), old(self).vertices.tngs@.dom().contains(k.id@),
+        ensures final(self).wf(), final(self).base_pt == old(self).base_pt, final(self).vertices.tngs@ == old(self).vertices.tngs@.remove(k.id@),
+            forall|a: int, b: int| #[trigger] ev(final(self).e(), a, b) == (if a == k.id@ || b == k.id@ { czero() } else { ev(old(self).e(), a, b) }),
+    { unimplemented!() }
     #[verifier::external_body] fn add_edge(&mut self, k: &TngKey, l: &TngKey, f: LC)
         requires !old(self).e().dom().contains((k.id@, l.id@)), f.v() != czero(),
         ensures final(self).e() == old(self).e().insert((k.id@, l.id@), f.v()), final(self).vertices == old(self).vertices, final(self).base_pt == old(self).base_pt, final(self).ht == old(self).ht { unimplemented!() }
@@ -289,6 +348,72 @@ impl TngComplex {
     //@|     assert(ev(e0, a, kx) == czero() && ev(e0, kx, b) == czero() && ev(e0, a, k1i) == czero() && ev(e0, k1i, b) == czero());
     //@|     assert(ev(e0, k.id@, k.id@) == czero());
     //@| }
+
+    /// Gaussian elimination of the invertible edge a: k0 -> k1: both vertices disappear and every pair (l0 -> k1, k0 -> l1) changes the
+    /// edge l0 -> l1 from d to d - part_eval(c a^-1 b)  (b = edge l0 -> k1, c = edge k0 -> l1); every other edge is unchanged
+    pub fn eliminate(&mut self, k0: &TngKey, k1: &TngKey)
+        requires old(self).wf(), k0.id@ != k1.id@, old(self).vertices.tngs@.dom().contains(k0.id@), old(self).vertices.tngs@.dom().contains(k1.id@),
+//@if B
+            old(self).e().dom().contains((k0.id@, k1.id@)), cinv(old(self).e()[(k0.id@, k1.id@)]).is_some(),
+//@endif
+        ensures old(self).e().dom().contains((k0.id@, k1.id@)), cinv(old(self).e()[(k0.id@, k1.id@)]).is_some(), final(self).wf(),
+            forall|a: int, b: int| #[trigger] ev(final(self).e(), a, b) == elim_ev(old(self).e(), k0.id@, k1.id@, a, b),
+    //@body impl/TngComplex/eliminate for_iter=1 loops=2 ring=1 iter_model=values! vec_elem=(TngKey,TngKey,LC)
+    //@+ loop 0 header
+    //@| keys.into_par_iter().map(|(l0, l1)|
+    //@+ loop 1 header
+    //@| for (l0, l1, s) in values
+    //@+ pre-raw
+    //@| let ghost e0 = self.e(); let ghost i0 = k0.id@; let ghost i1 = k1.id@;
+    //@| proof { lemma_nz_dom(e0); }
+    //@+ after-let keys
+    //@| assert(nodup2(kpairs(keys@)));
+    //@| assert forall|x: int, y: int| inpairs(kpairs(keys@), x, y) <==> (e0.dom().contains((x, i1)) && x != i0 && e0.dom().contains((i0, y)) && y != i1) by { }
+    //@+ loop 0
+    //@| invariant self.wf(), self.e() == e0, e0.dom().contains((i0, i1)), ainv.v() == cinv(e0[(i0, i1)]).unwrap(), k0.id@ == i0, k1.id@ == i1,
+    //@|     kpairs(__src0@).len() + __out0@.len() == kp.len(), kp.subrange(__out0@.len() as int, kp.len() as int) =~= kpairs(__src0@),
+    //@|     forall|x: int, y: int| inpairs(kp, x, y) ==> e0.dom().contains((x, i1)) && e0.dom().contains((i0, y)),
+    //@|     forall|i: int| 0 <= i < __out0@.len() ==> (#[trigger] __out0@[i]).0.id@ == kp[i].0 && __out0@[i].1.id@ == kp[i].1 && __out0@[i].2.v() == elim_s(e0, i0, i1, kp[i].0, kp[i].1),
+    //@| ensures __src0@.len() == 0,
+    //@| decreases __src0@.len(),
+    //@+ loop 0 top-raw
+    //@| let ghost n0 = __out0@.len() as int; let ghost s1 = __src0@;
+    //@+ loop 0 begin
+    //@| assert(kpairs(s1)[0] == kp[n0]);
+    //@| assert(inpairs(kp, kp[n0].0, kp[n0].1));
+    //@| assert(l0.id@ == kp[n0].0 && l1.id@ == kp[n0].1);
+    //@+ loop 0 end
+    //@| assert(kpairs(s1)[0] == kp[n0]);
+    //@| assert(inpairs(kp, kp[n0].0, kp[n0].1));
+    //@| ax_sub_zero_left(pe(cmul(cmul(ev(e0, i0, kp[n0].1), cinv(e0[(i0, i1)]).unwrap()), ev(e0, kp[n0].0, i1))));
+    //@| assert(kpairs(__src0@) =~= kpairs(s1).subrange(1, s1.len() as int));
+    //@+ after-let-raw keys
+    //@| let ghost kp = kpairs(keys@);
+    //@+ loop 1
+    //@| invariant self.wf(), gwf(e0, self.vertices.tngs@), e0.dom().contains((i0, i1)), forall|x: int, y: int| inpairs(kp, x, y) ==> e0.dom().contains((x, i1)) && e0.dom().contains((i0, y)),
+    //@|     __it1.es@ == values@, values@.len() == kp.len(), 0 <= __it1.pos@ <= __it1.es@.len(), nodup2(kp), self.base_pt == old(self).base_pt, self.vertices == old(self).vertices,
+    //@|     forall|i: int| 0 <= i < values@.len() ==> (#[trigger] values@[i]).0.id@ == kp[i].0 && values@[i].1.id@ == kp[i].1 && values@[i].2.v() == elim_s(e0, i0, i1, kp[i].0, kp[i].1),
+    //@|     forall|a: int, b: int| #[trigger] ev(self.e(), a, b) == (if inpairs(kp.subrange(0, __it1.pos@), a, b) { elim_s(e0, i0, i1, a, b) } else { ev(e0, a, b) }),
+    //@| ensures __it1.pos@ == __it1.es@.len(),
+    //@| decreases __it1.es@.len() - __it1.pos@,
+    //@+ loop 1 begin-raw
+    //@| let ghost e1 = self.e(); let ghost p1 = __it1.pos@ - 1;
+    //@+ loop 1 begin
+    //@| assert((l0.id@, l1.id@) == kp[p1] && s.v() == elim_s(e0, i0, i1, l0.id@, l1.id@));
+    //@| assert(inpairs(kp, l0.id@, l1.id@));
+    //@| assert(e0.dom().contains((l0.id@, i1)) && e0.dom().contains((i0, l1.id@)));
+    //@| lemma_nz_dom(e1);
+    //@| assert(!inpairs(kp.subrange(0, p1), l0.id@, l1.id@)) by { if inpairs(kp.subrange(0, p1), l0.id@, l1.id@) { let i = choose|i: int| 0 <= i < p1 && #[trigger] kp.subrange(0, p1)[i] == (l0.id@, l1.id@); assert(kp[i] != kp[p1]); } }
+    //@+ loop 1 end
+    //@| lemma_sub_step2(kp, p1);
+    //@| assert forall|a: int, b: int| #[trigger] ev(self.e(), a, b) == (if inpairs(kp.subrange(0, p1 + 1), a, b) { elim_s(e0, i0, i1, a, b) } else { ev(e0, a, b) }) by {
+    //@|     assert(ev(e1, a, b) == (if inpairs(kp.subrange(0, p1), a, b) { elim_s(e0, i0, i1, a, b) } else { ev(e0, a, b) }));
+    //@|     if !(a == l0.id@ && b == l1.id@) { assert(ev(self.e(), a, b) == ev(e1, a, b)); }
+    //@| }
+    //@+ loop 1 after
+    //@| assert(kp.subrange(0, kp.len() as int) =~= kp);
+    //@+ post
+    //@| assert forall|a: int, b: int| #[trigger] ev(self.e(), a, b) == elim_ev(e0, i0, i1, a, b) by { }
 }
 pub open spec fn kids(v: Seq<TngKey>) -> Seq<int> { v.map(|i: int, x: TngKey| x.id@) }
 pub proof fn lemma_sub_step(es: Seq<int>, p: int)
@@ -299,6 +424,25 @@ pub proof fn lemma_sub_step(es: Seq<int>, p: int)
         if inlist(es.subrange(0, p), x) { let a = choose|a: int| 0 <= a < p && #[trigger] es.subrange(0, p)[a] == x; assert(es.subrange(0, p + 1)[a] == x); }
         if x == es[p] { assert(es.subrange(0, p + 1)[p] == x); }
         if inlist(es.subrange(0, p + 1), x) { let a = choose|a: int| 0 <= a < p + 1 && #[trigger] es.subrange(0, p + 1)[a] == x; if a < p { assert(es.subrange(0, p)[a] == x); } }
+    }
+}
+/// the new value of the edge l0 -> l1 for a pair (l0 -> k1, k0 -> l1):  d - pe(c a^-1 b)
+pub open spec fn elim_s(e: EMap, k0: int, k1: int, l0: int, l1: int) -> int {
+    csub(ev(e, l0, l1), pe(cmul(cmul(ev(e, k0, l1), cinv(e[(k0, k1)]).unwrap()), ev(e, l0, k1))))
+}
+pub open spec fn elim_ev(e: EMap, k0: int, k1: int, a: int, b: int) -> int {
+    if a == k0 || a == k1 || b == k0 || b == k1 { czero() }
+    else if e.dom().contains((a, k1)) && e.dom().contains((k0, b)) { elim_s(e, k0, k1, a, b) }
+    else { ev(e, a, b) }
+}
+pub proof fn lemma_sub_step2(es: Seq<(int, int)>, p: int)
+    requires 0 <= p < es.len()
+    ensures forall|x: int, y: int| inpairs(es.subrange(0, p + 1), x, y) <==> (inpairs(es.subrange(0, p), x, y) || (x, y) == es[p])
+{
+    assert forall|x: int, y: int| inpairs(es.subrange(0, p + 1), x, y) <==> (inpairs(es.subrange(0, p), x, y) || (x, y) == es[p]) by {
+        if inpairs(es.subrange(0, p), x, y) { let a = choose|a: int| 0 <= a < p && #[trigger] es.subrange(0, p)[a] == (x, y); assert(es.subrange(0, p + 1)[a] == (x, y)); }
+        if (x, y) == es[p] { assert(es.subrange(0, p + 1)[p] == (x, y)); }
+        if inpairs(es.subrange(0, p + 1), x, y) { let a = choose|a: int| 0 <= a < p + 1 && #[trigger] es.subrange(0, p + 1)[a] == (x, y); if a < p { assert(es.subrange(0, p)[a] == (x, y)); } }
     }
 }
 /// stored edges are non-zero, so "there is an edge" and "the morphism is not zero" coincide
